@@ -11,3 +11,5 @@ if [ ! -x $V/bin/python ] || ! $V/bin/python -c "import crosshair, z3" 2>/dev/nu
   PIP_NO_INDEX=1 $V/bin/pip install -q --no-index --find-links /opt/veriftools/wheels crosshair-tool z3-solver >/dev/null
 fi
 $V/bin/python -c "import crosshair, z3; print('venv ok', crosshair.__version__, z3.get_version_string())"
+# the pure-Python protobuf model must agree with the real runtime on vizier's own converter / servicer flows
+$V/bin/python env/symproto_selftest.py
